@@ -3,30 +3,42 @@ package main
 import (
 	"bytes"
 	"fmt"
-	"os"
 
 	"github.com/CloudyKit/jet/v6"
 )
 
-func main() {
-	for _, src := range os.Args[1:] {
-		ld := jet.NewInMemLoader()
-		ld.Set("/t.jet", src)
-		set := jet.NewSet(ld)
-		t, err := set.GetTemplate("/t.jet")
-		if err != nil {
-			fmt.Printf("%q: parse error %v\n", src, err)
-			continue
-		}
-		func() {
-			defer func() {
-				if e := recover(); e != nil {
-					fmt.Printf("%q: EXECUTE PANIC %v\n", src, e)
-				}
-			}()
-			var b bytes.Buffer
-			err := t.Execute(&b, nil, map[string]interface{}{"x": 1})
-			fmt.Printf("%q: out=%q err=%v\n", src, b.String(), err)
-		}()
+func run(files map[string]string, entry string) {
+	ld := jet.NewInMemLoader()
+	for p, c := range files {
+		ld.Set(p, c)
 	}
+	set := jet.NewSet(ld)
+	t, err := set.GetTemplate(entry)
+	if err != nil {
+		fmt.Println("parse error", err)
+		return
+	}
+	func() {
+		defer func() {
+			if e := recover(); e != nil {
+				fmt.Printf("EXECUTE PANIC %v\n", e)
+			}
+		}()
+		var b bytes.Buffer
+		err := t.Execute(&b, nil, nil)
+		fmt.Printf("out=%q err=%v\n", b.String(), err)
+	}()
+}
+
+func main() {
+	run(map[string]string{
+		"/main.jet": `{{block wrap()}}[{{include "/i1.jet"}}]{{end}}{{yield wrap() content}}C{{ nope }}{{end}}`,
+		"/i1.jet":   `{{include "/i2.jet"}}`,
+		"/i2.jet":   `{{yield content}}`,
+	}, "/main.jet")
+	run(map[string]string{
+		"/main.jet": `{{block wrap()}}[{{include "/i1.jet"}}]{{end}}{{try}}{{yield wrap() content}}C{{ nope }}{{end}}{{catch}}caught{{end}}|after`,
+		"/i1.jet":   `{{include "/i2.jet"}}`,
+		"/i2.jet":   `{{yield content}}`,
+	}, "/main.jet")
 }
